@@ -24,6 +24,7 @@ import (
 	"os"
 	"runtime/debug"
 	"sort"
+	"strconv"
 	"strings"
 	"time"
 
@@ -581,6 +582,15 @@ func runHistCase(o *Out, ci int, hc *histCase, nops int, distinct map[string]boo
 		}
 	}
 	observe(sol, "new-solution")
+	doPanicEarly := func(f func()) {
+		defer func() {
+			if r := recover(); r != nil {
+				o.Violate(Violation{Property: "C16", Clause: "panic-in-operation", Sig: "C16|panic-in-operation|sequence-generator", Detail: fmt.Sprint(r), Replay: hc})
+			}
+		}()
+		f()
+	}
+	doPanicEarly(func() { seqCorrespondence(o, sol) })
 	// NR.Coll correspondence: the unit forest, then after every operation the operation with its
 	// feasibility bits and the resulting collections
 	cu := func(modelUnitIndex int) int {
@@ -1470,6 +1480,7 @@ func estCorrespondence(o *Out, rec *recorder, mv nextroute.SolutionMoveStops, v 
 		return
 	}
 	vt := v.ModelVehicle().VehicleType()
+	waitEstCorrespondence(o, rec, mv, v, hyp, firstIns, len(sps))
 	for _, ev := range rec.ests {
 		mx, ok := ev.Constraint.(nextroute.Maximum)
 		if !ok || ev.Move != nextroute.SolutionMove(mv) {
@@ -1611,4 +1622,123 @@ func sameIDs(a []string, b []string) bool {
 		}
 	}
 	return true
+}
+
+// waitEstCorrespondence: the two waiting-time estimates against NR.WaitEst, on what they read: the hypothetical
+// route from the stop before the first inserted stop (travel duration, windows, process duration given the
+// predecessor in the walk, the stop's own wait limit) and what is stored for the planned stops (arrival, end,
+// accumulated wait of the current predecessor, accumulated wait at the vehicle's last stop). The accumulated
+// waits are recomputed from the stored arrival and start values (the constraint's stop data is not exported).
+func waitEstCorrespondence(o *Out, rec *recorder, mv nextroute.SolutionMoveStops, v nextroute.SolutionVehicle,
+	hyp []nextroute.SolutionStop, firstIns, cnt int) {
+	var vehC nextroute.MaximumWaitVehicleConstraint
+	var stopC nextroute.MaximumWaitStopConstraint
+	var vehEv, stopEv *estEvent
+	for i := range rec.ests {
+		ev := &rec.ests[i]
+		if ev.Move != nextroute.SolutionMove(mv) {
+			continue
+		}
+		if c, ok := ev.Constraint.(nextroute.MaximumWaitVehicleConstraint); ok {
+			vehC, vehEv = c, ev
+		}
+		if c, ok := ev.Constraint.(nextroute.MaximumWaitStopConstraint); ok {
+			stopC, stopEv = c, ev
+		}
+	}
+	if vehEv == nil && stopEv == nil {
+		return
+	}
+	vt := v.ModelVehicle().VehicleType()
+	acc := map[int]float64{} // solution stop index → accumulated wait stored there
+	a := 0.0
+	stops := v.SolutionStops()
+	for i, st := range stops {
+		if i > 0 && i < len(stops)-1 {
+			a += st.StartValue() - st.ArrivalValue()
+		}
+		acc[st.Index()] = a
+	}
+	lastAcc := a
+	timeDep := vt.TravelDurationExpression().IsDependentOnTime()
+	from := hyp[firstIns-1]
+	pe := from.EndValue()
+	var items []string
+	prevEnd := pe
+	for i := firstIns; i < len(hyp); i++ {
+		to := hyp[i]
+		travel, _, start, end := vt.TemporalValues(prevEnd, hyp[i-1].ModelStop(), to.ModelStop())
+		wins := "-"
+		if ws := to.ModelStop().Windows(); len(ws) > 0 {
+			var parts []string
+			for _, w := range ws {
+				parts = append(parts, rat(float64(w[0].Unix()))+"~"+rat(float64(w[1].Unix())))
+			}
+			wins = strings.Join(parts, ",")
+		} else if es := to.ModelStop().EarliestStart(); !es.IsZero() && es.Unix() > 0 {
+			// a bare earliest start behaves like a window that never closes
+			wins = rat(float64(es.Unix())) + "~" + rat(1e12)
+		}
+		mw := 0.0
+		if stopC != nil {
+			mw = stopC.Maximum().Value(nil, nil, to.ModelStop())
+		}
+		cArr, cEnd, cPrev := 0.0, 0.0, 0.0
+		if to.IsPlanned() {
+			cArr, cEnd = to.ArrivalValue(), to.EndValue()
+			cPrev = acc[to.Previous().Index()]
+		}
+		items = append(items, fmt.Sprintf("%s;%s;%s;%s;%s;%s;%s;%s", rat(travel), rat(end-start), b01(to.IsPlanned()), rat(mw),
+			rat(cArr), rat(cEnd), rat(cPrev), wins))
+		prevEnd = end
+	}
+	if vehEv != nil {
+		mx := vehC.Maximum().Value(vt, nil, nil)
+		o.Op(fmt.Sprintf("est waitv %s %s %s %s %s %d %s", rat(mx), rat(lastAcc), b01(timeDep), rat(pe), rat(acc[from.Index()]), cnt,
+			strings.Join(items, " ")), "est "+b01(vehEv.Violated))
+		o.Count("est-correspondence:wait-vehicle")
+	}
+	if stopEv != nil {
+		o.Op(fmt.Sprintf("est waits %s %s %d %s", b01(timeDep), rat(pe), cnt, strings.Join(items, " ")), "est "+b01(stopEv.Violated))
+		o.Count("est-correspondence:wait-stop")
+	}
+}
+
+// seqCorrespondence: the stop orders delivered by SequenceGeneratorChannel for a multi-stop unit against
+// NR.Seq.orders (all orders the unit's DAG allows, each once; a prefix of `SequenceSampleSize` of them).
+// Runs on a copy so that the history's own random stream is not disturbed.
+func seqCorrespondence(o *Out, sol nextroute.Solution) {
+	cp := sol.Copy()
+	for _, u := range cp.UnPlannedPlanUnits().SolutionPlanUnits() {
+		for _, su := range memberStopsUnits(u) {
+			stops := su.SolutionStops()
+			if len(stops) < 2 || len(stops) > 5 {
+				continue
+			}
+			var ids, arcs, seqs []string
+			for _, st := range stops {
+				ids = append(ids, strconv.Itoa(st.Index()))
+			}
+			for _, a := range su.ModelPlanStopsUnit().DirectedAcyclicGraph().Arcs() {
+				arcs = append(arcs, fmt.Sprintf("%d>%d>%s", cp.SolutionStop(a.Origin()).Index(), cp.SolutionStop(a.Destination()).Index(), b01(a.IsDirect())))
+			}
+			quit := make(chan struct{})
+			for seq := range nextroute.SequenceGeneratorChannel(su, quit) {
+				var q []string
+				for _, st := range seq {
+					q = append(q, strconv.Itoa(st.Index()))
+				}
+				seqs = append(seqs, strings.Join(q, "."))
+			}
+			close(quit)
+			dash := func(l []string, sep string) string {
+				if len(l) == 0 {
+					return "-"
+				}
+				return strings.Join(l, sep)
+			}
+			o.Op(fmt.Sprintf("seq %d %s %s %s", cp.Model().SequenceSampleSize(), strings.Join(ids, ","), dash(arcs, ","), dash(seqs, "|")), "seq ok")
+			o.Count(fmt.Sprintf("seq-correspondence:stops=%d,orders=%d", len(stops), len(seqs)))
+		}
+	}
 }
